@@ -10,6 +10,10 @@ LEVEL = "translation_validation"
 def run(chk, tier):
     # visiting walks entries with a cursor: every entry must hand the cursor over to its successor (E4.cursor, incl. the
     # generated constructor of entries without cursor-moving members)
+    # which members are visited is decided by field_context::actual_presence in every generator (never by the declared
+    # attribute of the <field>, which the validator lets the encoding override)
+    import gflow
+    gflow.check_declared_presence(chk)
     e4.check(chk, ("visit", "cursor"), tier)
     for name in (["vlayout", "vprims_le"] + (["vheaders", "test_schema", "vnames"] if tier == "thorough" else [])):
         spec_visit.check(chk, lib_for(name))
